@@ -27,6 +27,8 @@ type c12Case struct {
 	// Second: a second table ("parcels_2", same schema) written afterwards through the SAME TargetGeopackage, the way
 	// the command line tool handles a source with several tables; its geometries lie 5000 units further east
 	Second *c12Part `json:"second_table,omitempty"`
+	// LocalSRS: the source registers its reference system under srs_id 100001 (organisation EPSG, code 28992)
+	LocalSRS bool `json:"local_srs_id,omitempty"`
 }
 
 type c12Part struct {
@@ -186,6 +188,14 @@ func c12Cases(thorough bool) []c12Case {
 			}
 		}
 	}
+	// a reference system registered under a file-local srs_id: counts around the page size x page sizes 1..2, both schemas
+	for p := 1; p <= 2; p++ {
+		for n := 0; n <= 2*p+1; n++ {
+			for _, schema := range []string{"mixed", "fid"} {
+				cs = append(cs, c12Case{Page: p, N: n, Pattern: strings.Repeat("A", n), Schema: schema, GType: "POLYGON", LocalSRS: true})
+			}
+		}
+	}
 	// two tables through one target: every pair of short patterns (incl. empty tables) x page sizes 1..2
 	pats := []string{"", "A", "B", "E", "AA", "AB", "BA", "AE", "AAA"}
 	for p := 1; p <= 2; p++ {
@@ -244,6 +254,11 @@ func c12One(work string, shard int, c c12Case, srcTables map[string][]tgpkg.Tabl
 	key := c.Schema + "/" + c.GType
 	tds := []tableDef{c12Table(c.Schema, c.GType)}
 	parts := []c12Part{{c.N, c.Pattern}}
+	srs := rdSRS
+	if c.LocalSRS {
+		srs = rdLocalSRS
+		key += "/local-srs"
+	}
 	if c.Second != nil {
 		key += "/2"
 		td2 := c12Table(c.Schema, c.GType)
@@ -252,8 +267,8 @@ func c12One(work string, shard int, c c12Case, srcTables map[string][]tgpkg.Tabl
 		parts = append(parts, *c.Second)
 	}
 	if _, ok := srcTables[key]; !ok {
-		src := filepath.Join(work, fmt.Sprintf("c12-src-%d-%s-%s-%d.gpkg", shard, c.Schema, c.GType, len(tds)))
-		if err := createSource(src, rdSRS, tds, nil); err != nil {
+		src := filepath.Join(work, fmt.Sprintf("c12-src-%d-%s-%s-%d-%d.gpkg", shard, c.Schema, c.GType, len(tds), srs.ID))
+		if err := createSource(src, srs, tds, nil); err != nil {
 			ev.HarnessError("cannot create source: %v", err)
 		}
 		s := tgpkg.SourceGeopackage{}
@@ -308,7 +323,7 @@ func c12One(work string, shard int, c c12Case, srcTables map[string][]tgpkg.Tabl
 	}
 	defer db.Close()
 	for ti, td := range tds {
-		if sig, what := c12CheckTable(db, td, wants[ti], c); sig != "" {
+		if sig, what := c12CheckTable(db, td, wants[ti], c, srs); sig != "" {
 			if ti > 0 {
 				sig, what = "second-table:"+sig, "second table: "+what
 			}
@@ -318,7 +333,7 @@ func c12One(work string, shard int, c c12Case, srcTables map[string][]tgpkg.Tabl
 	return "", ""
 }
 
-func c12CheckTable(db *sql.DB, td tableDef, want []row, c c12Case) (string, string) {
+func c12CheckTable(db *sql.DB, td tableDef, want []row, c c12Case, srs ggpkg.SpatialReferenceSystem) (string, string) {
 	rb, err := readTable(db, td.Name)
 	if err != nil {
 		return "unreadable-target", err.Error()
@@ -330,11 +345,11 @@ func c12CheckTable(db *sql.DB, td tableDef, want []row, c c12Case) (string, stri
 	if !reflect.DeepEqual(rb.Columns, td.Cols) {
 		return "schema-differs", fmt.Sprintf("columns %+v, source has %+v", rb.Columns, td.Cols)
 	}
-	if rb.GeomCol != td.GCol || !strings.EqualFold(rb.GType, c.GType) || rb.SRSID != srsRD {
-		return "geometry-column-differs", fmt.Sprintf("geometry column %s type %s srs %d, source has %s %s %d", rb.GeomCol, rb.GType, rb.SRSID, td.GCol, c.GType, srsRD)
+	if rb.GeomCol != td.GCol || !strings.EqualFold(rb.GType, c.GType) || rb.SRSID != srs.ID {
+		return "geometry-column-differs", fmt.Sprintf("geometry column %s type %s srs %d, source has %s %s %d", rb.GeomCol, rb.GType, rb.SRSID, td.GCol, c.GType, srs.ID)
 	}
-	if rb.SRS.Name != rdSRS.Name || rb.SRS.Organization != rdSRS.Organization || rb.SRS.OrganizationCoordsysID != rdSRS.OrganizationCoordsysID || rb.SRS.Definition != rdSRS.Definition {
-		return "srs-differs", fmt.Sprintf("srs row %+v, source has %+v", rb.SRS, rdSRS)
+	if rb.SRS.Name != srs.Name || rb.SRS.Organization != srs.Organization || rb.SRS.OrganizationCoordsysID != srs.OrganizationCoordsysID || rb.SRS.Definition != srs.Definition {
+		return "srs-differs", fmt.Sprintf("srs row %+v, source has %+v", rb.SRS, srs)
 	}
 	// rows
 	if len(rb.Rows) != len(want) {
